@@ -26,8 +26,14 @@ A2(k, x, y) == [k |-> k, xs |-> <<x, y>>, vs |-> <<>>]
 V(k, p) == [k |-> k, v |-> p, xs |-> <<>>]
 C(k, xs) == [k |-> k, v |-> 0, xs |-> xs]
 
-Scalars == {"none", "bool", "int", "float", "str", "bytes", "missing", "enumv", "state", "state2"}
+(* annotations decided by a plain instance check: complex, range, UUID, date, datetime (a subclass of date), time,
+   timedelta, timezone, Path, re.Pattern *)
+Plain == {"complex", "range", "uuid", "date", "datetime", "time", "timedelta", "timezone", "path", "pattern"}
+Scalars == {"none", "bool", "int", "float", "str", "bytes", "missing", "enumv", "state", "state2", "func", "cls"} \cup Plain
 Range(s) == {s[i] : i \in DOMAIN s}
+
+(* a range is a Sequence of ints: where a sequence is wanted it stands for its elements (range(3) = 0, 1, 2) *)
+El(v) == IF v.k = "range" THEN <<V("int", 0), V("int", 1), V("int", 2)>> ELSE v.xs
 
 (* --------------------------- conformance --------------------------- *)
 RECURSIVE Conforms(_, _)
@@ -40,10 +46,13 @@ Conforms(a, v) ==
     [] a.k = "float"   -> v.k = "float"
     [] a.k = "str"     -> v.k = "str"
     [] a.k = "bytes"   -> v.k = "bytes"
+    [] a.k \in Plain   -> v.k = a.k \/ (a.k = "date" /\ v.k = "datetime")
+    [] a.k = "callable" -> v.k \in {"func", "cls"}              \* anything callable: a function, a class
+    [] a.k = "type"    -> v.k = "cls"                           \* a class object
     [] a.k = "enum"    -> v.k = "enumv"
     [] a.k = "state"   -> v.k \in {"state", "state2"}        \* state2: an instance of a subclass
     [] a.k = "lit"     -> \E i \in DOMAIN a.vs : a.vs[i].k = v.k /\ a.vs[i].v = v.v
-    [] a.k = "seq"     -> v.k \in {"list", "tuple"} /\ \A i \in DOMAIN v.xs : Conforms(a.xs[1], v.xs[i])
+    [] a.k = "seq"     -> v.k \in {"list", "tuple", "range"} /\ \A i \in DOMAIN El(v) : Conforms(a.xs[1], El(v)[i])
     [] a.k = "vtuple"  -> v.k = "tuple" /\ \A i \in DOMAIN v.xs : Conforms(a.xs[1], v.xs[i])
     [] a.k \in {"set", "fset"} -> v.k \in {"set", "fset"} /\ \A i \in DOMAIN v.xs : Conforms(a.xs[1], v.xs[i])
     [] a.k = "map"     -> v.k = "dict" /\ \A i \in DOMAIN v.xs :
@@ -61,13 +70,13 @@ RECURSIVE Contested(_, _)
 Contested(a, v) ==
   CASE a.k = "lit" -> \E i \in DOMAIN a.vs : a.vs[i].v = v.v /\ a.vs[i].k # v.k /\ {a.vs[i].k, v.k} \subseteq {"int", "bool"}
     [] a.k \in {"tuple", "vtuple"} ->
-         \/ (v.k = "list" /\ (a.k = "vtuple" \/ Len(v.xs) = Len(a.xs))
-              /\ \A i \in DOMAIN v.xs : (Conforms(IF a.k = "vtuple" THEN a.xs[1] ELSE a.xs[i], v.xs[i])
-                                        \/ Contested(IF a.k = "vtuple" THEN a.xs[1] ELSE a.xs[i], v.xs[i])))
+         \/ (v.k \in {"list", "range"} /\ (a.k = "vtuple" \/ Len(El(v)) = Len(a.xs))
+              /\ \A i \in DOMAIN El(v) : (Conforms(IF a.k = "vtuple" THEN a.xs[1] ELSE a.xs[i], El(v)[i])
+                                        \/ Contested(IF a.k = "vtuple" THEN a.xs[1] ELSE a.xs[i], El(v)[i])))
          \/ (v.k = "tuple" /\ (a.k = "vtuple" \/ Len(v.xs) = Len(a.xs))
               /\ \E i \in DOMAIN v.xs : Contested(IF a.k = "vtuple" THEN a.xs[1] ELSE a.xs[i], v.xs[i]))
     [] a.k = "seq" -> \/ v.k \in {"str", "bytes"}
-                      \/ (v.k \in {"list", "tuple"} /\ \E i \in DOMAIN v.xs : Contested(a.xs[1], v.xs[i]))
+                      \/ (v.k \in {"list", "tuple", "range"} /\ \E i \in DOMAIN El(v) : Contested(a.xs[1], El(v)[i]))
     [] a.k \in {"set", "fset"} -> v.k \in {"set", "fset"} /\ \E i \in DOMAIN v.xs : Contested(a.xs[1], v.xs[i])
     [] a.k = "map" -> v.k = "dict" /\ \E i \in DOMAIN v.xs :
                          Contested(a.xs[1], v.xs[i].xs[1]) \/ Contested(a.xs[2], v.xs[i].xs[2])
@@ -80,9 +89,9 @@ FirstAlt(a, v) == CHOOSE i \in DOMAIN a.xs : (Conforms(a.xs[i], v) \/ Contested(
                      /\ \A j \in 1..(i - 1) : ~(Conforms(a.xs[j], v) \/ Contested(a.xs[j], v))
 RECURSIVE Norm(_, _)
 Norm(a, v) ==
-  CASE a.k \in {"seq", "vtuple"} /\ v.k \in {"list", "tuple"} -> C("tuple", [i \in DOMAIN v.xs |-> Norm(a.xs[1], v.xs[i])])
-    [] a.k = "tuple" /\ v.k \in {"list", "tuple"} /\ Len(v.xs) = Len(a.xs) ->
-         C("tuple", [i \in DOMAIN v.xs |-> Norm(a.xs[i], v.xs[i])])
+  CASE a.k \in {"seq", "vtuple"} /\ v.k \in {"list", "tuple", "range"} -> C("tuple", [i \in DOMAIN El(v) |-> Norm(a.xs[1], El(v)[i])])
+    [] a.k = "tuple" /\ v.k \in {"list", "tuple", "range"} /\ Len(El(v)) = Len(a.xs) ->
+         C("tuple", [i \in DOMAIN El(v) |-> Norm(a.xs[i], El(v)[i])])
     [] a.k \in {"set", "fset"} /\ v.k \in {"set", "fset"} ->
          C("fset", [i \in DOMAIN v.xs |-> IF Bug = "set_keeps_raw" THEN v.xs[i] ELSE Norm(a.xs[1], v.xs[i])])
     [] a.k = "map" /\ v.k = "dict" ->
@@ -95,7 +104,8 @@ Norm(a, v) ==
 (* --------------------------- bounded term sets --------------------------- *)
 Int1 == V("int", 1)  StrA == V("str", 1)  StrBC == V("str", 2)  None == V("none", 0)  True == V("bool", 1)
 ValLeaf == {None, V("bool", 0), True, V("int", 0), Int1, V("float", 15), StrA, StrBC, V("bytes", 1),
-            V("missing", 0), V("enumv", 1), V("state", 1), V("state2", 1)}
+            V("missing", 0), V("enumv", 1), V("state", 1), V("state2", 1), V("func", 1), V("cls", 1)}
+            \cup {V(k, 1) : k \in Plain}
 Elem == {Int1, StrA, None, True}                \* what containers hold
 Keys == {StrA, StrBC, Int1}
 Seqs(S) == {<<>>} \cup {<<x>> : x \in S} \cup {<<x, y>> : x \in S, y \in S}
@@ -111,12 +121,15 @@ ValDeep == {C("tuple", <<C("list", <<Int1>>), C("list", <<>>)>>), C("tuple", <<C
 Vals == ValLeaf \cup ValCont \cup (IF Depth >= 2 THEN ValDeep ELSE {})
 
 AnnLeaf == {A("none"), A("bool"), A("int"), A("float"), A("str"), A("bytes"), A("any"), A("missing"), A("enum"),
-            A("state"), [k |-> "lit", xs |-> <<>>, vs |-> <<Int1, StrA>>]}
+            A("state"), [k |-> "lit", xs |-> <<>>, vs |-> <<Int1, StrA>>], A("callable"), A("type")}
+            \cup {A(k) : k \in Plain}
 Small == {A("int"), A("str"), A("none"), A("bool")}
 AnnCont == {A1(k, x) : k \in {"seq", "set", "fset", "vtuple", "alias"}, x \in Small}
              \cup {A1("tuple", x) : x \in Small} \cup {A2("tuple", x, y) : x \in Small, y \in Small}
              \cup {A2("map", k, x) : k \in {A("str"), A("int")}, x \in Small}
              \cup {A2("union", x, y) : x \in Small \cup {A("missing")}, y \in Small \cup {A("float")}}
+             \cup {A2("union", A("date"), A("none")), A2("union", A("callable"), A("none")), A1("seq", A("date")),
+                   A2("map", A("str"), A("path"))}
              \* unions with a parametrised container alternative (Optional[tuple[int, ...]] and the like)
              \cup {A2("union", x, y) : x \in {A1("vtuple", A("int")), A2("tuple", A("int"), A("str")), A1("fset", A("int")),
                                               A1("seq", A("str")), A1("set", A("int")), A2("map", A("str"), A("int"))},
@@ -163,7 +176,8 @@ RECURSIVE SameShape(_, _)
 SameShape(u, w) == /\ Len(u.xs) = Len(w.xs)
                    /\ (u.k \in Scalars => (u.k = w.k /\ u.v = w.v))
                    /\ \A i \in DOMAIN u.xs : SameShape(u.xs[i], w.xs[i])
-Faithful == (done /\ obs.acc = "yes") => SameShape(val, obs.stored)
+Faithful == (done /\ obs.acc = "yes") =>
+              SameShape(IF val.k = "range" /\ obs.stored.k # "range" THEN C("list", El(val)) ELSE val, obs.stored)
 (* C05: containers are stored in their immutable form *)
 RECURSIVE Frozen(_)
 Frozen(v) == v.k \notin {"list", "set"} /\ \A i \in DOMAIN v.xs : Frozen(v.xs[i])
